@@ -3,7 +3,7 @@
    Only statements (closed by `exact`), Print Assumptions, and examples.
    Model: Model/Tok.v (Tokenizer.parse, character-exact), Model/TokPos.v (positions, hand-overs, reach). *)
 From Coq Require Import ZArith NArith List Bool String.
-From JMCV Require Import Model.Tok Model.TokPos Proofs.Tok Proofs.TokPos Proofs.TokProps.
+From JMCV Require Import Model.Tok Model.TokPos Model.TokDerived Proofs.Tok Proofs.TokPos Proofs.TokProps Proofs.TokDerived.
 Import ListNotations.
 Open Scope Z_scope.
 
@@ -83,6 +83,31 @@ Theorem C14_error_end : forall printable p0 s t,
               cite_end printable t = pos_after p0 (d ++ t_str t).
 Proof. exact cite_end_is_end. Qed.
 Print Assumptions C14_error_end.
+
+(* Derived tokens (strengthening round 1).  `parse_func_args` splits the sign off the operator token of a glued
+   keyword argument `key=-N` / `key=+N` and cites it `d` columns right of that operator token.  If the operator token
+   is cited at the position of its own text (C14_tok_pos / C14_nested), the sign token is cited at the position of the
+   sign with d = 1 (the tree: Model.TokDerived.d_sign), for every text and start position ... *)
+Theorem C14_sign_split : forall p0 s t,
+  faithful_from p0 s t -> is_signed_eq t = true -> faithful_from p0 s (split_sign d_sign t).
+Proof. exact split_sign_faithful. Qed.
+Print Assumptions C14_sign_split.
+
+(* ... and never with d = 0 (the sign cited at the column of the `=`): diagnostics on such a value would cite one
+   column too far left. *)
+Theorem C14_sign_split_needs_offset : forall p0 s t,
+  faithful_from p0 s t -> is_signed_eq t = true -> ~ faithful_from p0 s (split_sign 0 t).
+Proof. exact split_sign_zero_unfaithful. Qed.
+Print Assumptions C14_sign_split_needs_offset.
+
+(* hypotheses satisfiable: `(count=-2)` re-tokenised at (1, 2): the operator token `=-` is at col 7, the sign at col 8 *)
+Example C14_sign_split_nonvacuous :
+  match parse (fun _ => None) (fun _ => true) false false false (of_string "count=-2"%string) 1 2 with
+  | Ok [[_; op; _]] => (is_signed_eq op = true) /\ ((t_line op, t_col op) = (1, 7)) /\
+                       (split_sign d_sign op = mkTok OPERATOR 1 8 [45%N] false)
+  | _ => False
+  end.
+Proof. vm_compute. repeat split. Qed.
 
 (* Non-vacuity: a three-level program; the planted keyword is reachable with the repaired hand-overs and
    is cited at (2, 27), which is where its text is. *)
